@@ -2,7 +2,7 @@
 (* Trace validation for C20: each record is a command set, a word and what the real ParseArgs answered. *)
 EXTENDS Closest, Json
 
-VARIABLES l, bad, stat, j
+VARIABLE l
 
 TraceRecs == ndJsonDeserialize("trace.ndjson")
 Props == {"C20", "DRIFT"}
@@ -24,13 +24,19 @@ Judge(rec) ==
       multibyte |-> B(\E i \in 1..Len(rec.word) : rec.word[i] > 127), hidden |-> B(\E i \in 1..Len(rec.hidden) : rec.hidden[i])]
 
 StatKeys == {"suggest", "enum", "multibyte", "hidden"}
-Init == l = 1 /\ bad = [p \in Props |-> {}] /\ stat = [k \in StatKeys |-> 0] /\ j = <<>>
-Next == /\ l <= Len(TraceRecs) /\ l' = l + 1
-        /\ j' = Judge(TraceRecs[l])
-        /\ bad' = [p \in Props |-> IF j'[p] THEN bad[p] ELSE bad[p] \cup {l}]
-        /\ stat' = [k \in StatKeys |-> stat[k] + j'[k]]
-        /\ TLCSet(1, bad') /\ TLCSet(2, stat') /\ TLCSet(3, l)
-Spec == Init /\ [][Next]_<<l, bad, stat, j>>
+\* One state per record.  The judging is done in an invariant, not in the action: TLC caches lazily evaluated
+\* operator arguments and LET definitions only when it evaluates a state predicate; inside a next-state action every
+\* use re-evaluates them, which turns the nested operators of the specification exponential on large records.
+Init == l = 1 /\ TLCSet(1, [p \in Props |-> {}]) /\ TLCSet(2, [k \in StatKeys |-> 0]) /\ TLCSet(3, 0)
+Next == l < Len(TraceRecs) /\ l' = l + 1
+Spec == Init /\ [][Next]_l
+JudgeRecord ==
+  (l <= Len(TraceRecs)) =>
+    LET j == Judge(TraceRecs[l]) IN
+    /\ TLCSet(1, [p \in Props |-> IF j[p] THEN TLCGet(1)[p] ELSE TLCGet(1)[p] \cup {l}])
+    /\ TLCSet(2, [k \in StatKeys |-> TLCGet(2)[k] + j[k]])
+    /\ TLCSet(3, TLCGet(3) + 1)
+
 Post == /\ PrintT(<<"VERIF-CONSUMED", TLCGet(3), Len(TraceRecs)>>)
         /\ PrintT(<<"VERIF-STAT", TLCGet(2)>>)
         /\ \A p \in Props : PrintT(<<"VERIF-BAD", p, TLCGet(1)[p]>>)
